@@ -6,4 +6,6 @@ import (
 	"verif/internal/harness"
 )
 
-func TestProps(t *testing.T) { harness.Main(t, "C04", Encode, EncodeHuge, Decode, Reuse, JSONMsg) }
+func TestProps(t *testing.T) {
+	harness.Main(t, "C04", Encode, EncodeHuge, Decode, Reuse, FromChain, JSONMsg)
+}
